@@ -964,7 +964,7 @@ def compare_history(ctx, rec, replies):
                 pass
         # ---- directory state
         if ev["kind"] == "dev" or ev["kind"] == "clean-src":
-            mdirs = {d["dir"]: (hashlib.sha1(d["digest"].encode()).hexdigest() if d["digest"] is not None else "False")
+            mdirs = {d["dir"]: (hashlib.md5(d["digest"].encode("utf8")).hexdigest() if d["digest"] is not None else "False")
                      for d in m.get("dirs", [])}
             idirs = dict(ev["state"]["dirs"])
             if not ev["state"]["ws_known"] and not idirs:
@@ -1057,7 +1057,7 @@ def histories(ctx, want_model):
     recs = []
     batch = 16
     for i in range(0, len(jobs), batch):
-        if ctx.time_left() < 45 and i > 0:
+        if ctx.time_left() < 60 and i > 0:
             ctx.skip("histories %d.. not run: time budget" % i)
             break
         recs.extend(ctx.parallel(run_history, jobs[i:i + batch], workers=16))
@@ -1087,6 +1087,7 @@ def oracle(ctx):
 def correspond(ctx):
     direct_streams(ctx)
     recs = histories(ctx, True)
+    direct_git(ctx)
     reqs, spans = [], []
     for rec in recs:
         if rec.get("skipped"):
@@ -1215,7 +1216,10 @@ def direct_streams(ctx):
         state = {d: (b"x", None) for d in dirs}
         state[None] = (b"v", None)
         srt = [d for d, v in checkoutsFromState(state)]
-        moved = r.sample(dirs, r.randrange(0, min(3, len(dirs)) + 0))
+        moved = []
+        for d in r.sample(dirs, r.randrange(0, min(3, len(dirs)) + 0)):
+            if os.path.normpath(d) not in [os.path.normpath(x) for x in moved]:
+                moved.append(d)      # a directory is moved to the attic once
         tr = AtticTracker()
         for j, d in enumerate(moved):
             tr.add(os.path.normpath(os.path.join("ws", d)), "ATTIC%d" % j)
@@ -1268,12 +1272,15 @@ def direct_streams(ctx):
         if got["aff"] != maff:
             ctx.disagree("AtticTracker.affected/getAtticPath == Model.trackerMatch", q, got["aff"], maff)
     ctx.trace_validated(len(out))
-    # ---- GitScm.switch / invoke / status on real clones
+
+
+def direct_git(ctx):
+    """GitScm.switch / invoke / status on real clones"""
     n = ctx.scale(96, 4000)
     jobs = [(os.path.join(ctx.tmp, "g%d" % i), os.path.join(ctx.repo, "pym"), "C12g-%d-%s-%d" % (ctx.seed, ctx.tier, i)) for i in range(n)]
     results = []
     for i in range(0, len(jobs), 32):
-        if ctx.time_left() < 100 and i > 0:
+        if ctx.time_left() < 25:
             ctx.skip("direct git cases %d.. not run: time budget" % i)
             break
         results.extend(ctx.parallel(direct_git_case, jobs[i:i + 32], workers=16))
